@@ -20,6 +20,7 @@ import (
 	"math/rand"
 	"os"
 	"strings"
+	"sync"
 	"time"
 
 	"github.com/rs/zerolog/diode"
@@ -40,7 +41,8 @@ type Script struct {
 	Free    bool     `json:"free"`
 	Foreign bool     `json:"foreign"` // generated from a model with other constants: skipped steps are expected
 	Seed    int64    `json:"seed"`
-	Werr    int      `json:"werr"` // > 0: the wrapped writer's Werr-th Write returns an error (once): delivery goes on all the same
+	NoAlert bool     `json:"noalert"` // the writer is created with a nil alerter: drops are not reported to anybody (no accounting), everything else holds
+	Werr    int      `json:"werr"`    // > 0: the wrapped writer's Werr-th Write returns an error (once): delivery goes on all the same
 }
 
 type ev map[string]interface{}
@@ -50,13 +52,24 @@ var (
 	curObs      []ev
 )
 
+// emitMu: records normally come from one goroutine at a time (the scheduler's), but code under test may call back (the
+// alerter) from a goroutine it started itself
+var emitMu sync.Mutex
+
 func emit(w *bufio.Writer, e ev) {
 	b, _ := json.Marshal(e)
+	emitMu.Lock()
 	w.Write(b)
 	w.WriteByte('\n')
+	emitMu.Unlock()
 }
 
-func obs(e ev) { curObs = append(curObs, e); emit(obsW, e) }
+func obs(e ev) {
+	emitMu.Lock()
+	curObs = append(curObs, e)
+	emitMu.Unlock()
+	emit(obsW, e)
+}
 
 // payload: the caller's buffer for message m. Lengths vary (below and above the pooled 500 bytes); every fourth message
 // lives in a buffer whose CAPACITY is far larger than its length and than the 64 KiB recycling limit (a reused scratch
@@ -342,14 +355,22 @@ func play(sc Script) (hung bool) {
 	vsync.LastBroadcastBy, vsync.LastBroadcastN = "", 0
 	curObs = curObs[:0]
 	r := &run{sc: sc, threads: map[string]*vsched.G{}, inWrite: map[string]bool{}, pdone: map[string]bool{}}
-	obs(ev{"a": "Reset", "id": sc.ID, "N": sc.N, "P": sc.P, "W": sc.W, "mode": sc.Mode, "block": sc.Block})
+	obs(ev{"a": "Reset", "id": sc.ID, "N": sc.N, "P": sc.P, "W": sc.W, "mode": sc.Mode, "block": sc.Block, "noalert": sc.NoAlert})
 	emit(implW, ev{"a": "Reset", "id": sc.ID, "N": sc.N, "P": sc.P, "W": sc.W, "mode": sc.Mode})
 	r.rw = &recWriter{block: sc.Block, failAt: sc.Werr}
 	interval := time.Duration(0)
 	if sc.Mode == "poller" {
 		interval = time.Millisecond
 	}
-	r.w = diode.NewWriter(r.rw, sc.N, interval, func(missed int) { obs(ev{"a": "Alert", "n": missed}) })
+	var alerter diode.Alerter = func(missed int) {
+		// async: the alerter was not called on a goroutine of the schedule (the consumer, inside TryNext) but on one the code
+		// started for it - a report that is not ordered with Close, and dies with the process on the Fatal path
+		obs(ev{"a": "Alert", "n": missed, "async": !vsched.Managed()})
+	}
+	if sc.NoAlert {
+		alerter = nil
+	}
+	r.w = diode.NewWriter(r.rw, sc.N, interval, alerter)
 	for p := 1; p <= sc.P; p++ {
 		p := p
 		name := fmt.Sprintf("P%d", p)
